@@ -44,7 +44,7 @@ def selfref_typearg(h, inside_gen=False):
     return any(selfref_typearg(a, inside_gen) for a in h.get('a', []) or [] if isinstance(a, dict))
 
 
-def generate(rng, run, tier):
+def _generate(rng, run, tier):
     maxlen = 6 if tier != 'thorough' or rng.random() < 0.8 else 40
     allow_selfref = rng.random() < 0.1      # avoid switch: known finding C01-generic-selfreferential-typearg
     if rng.random() < 0.004:
@@ -85,6 +85,13 @@ def generate(rng, run, tier):
             'warm_obj': H.gen_any_obj(rng, 1)}
 
 
+def generate(rng, run, tier):
+    case = _generate(rng, run, tier)
+    # the calling convention of the decorated callable (drawn last: the rest of the case is as it was without it)
+    case['sig'] = entry.gen_sig(rng)
+    return case
+
+
 def execute(case):
     import json
     from sim import boot
@@ -109,7 +116,7 @@ def execute(case):
         clear_caches()
         probes['cache_cleared'] = 1
     try:
-        prep = entry.Prepared(hint, case['conf'])
+        prep = entry.Prepared(hint, case['conf'], sig=case.get('sig', 'pos'))
     except Exception as e:      # noqa
         return c03._out(case, probes, ('unexpected_exception', 'preparing checkers for %r raised %s: %s' % (
             hint, type(e).__name__, str(e)[:300]), 'prepare:' + type(e).__name__))
@@ -153,4 +160,4 @@ SIGNATURES = {'generic_selfreferential_typearg': _sig_selfref}
 
 
 def describe(case):
-    return {'hint': case['h'], 'object': case['x'], 'conf': case['conf'], 'n_draws': len(case['draws']), 'perturb': case.get('perturb')}
+    return {'sig': case.get('sig', 'pos'), 'hint': case['h'], 'object': case['x'], 'conf': case['conf'], 'n_draws': len(case['draws']), 'perturb': case.get('perturb')}
